@@ -136,6 +136,7 @@ func runProp(id, tier string, seed int64, only string, list bool, mutant string)
 		}
 		c := &Ctx{P: p, Prop: id, Tier: tier}
 		flattenFields, flattenPrefer = false, ""
+		resetFlatPaths()
 		d.Run(c)
 		c.finish()
 		if only != "" {
